@@ -45,6 +45,8 @@ DIFFERENT = [
      "def f(a):\n    def _helper2(t1):\n        return (ys.extend([t1 - 0]), len(ys))[1]\n    ys = []\n    t2 = _helper2(a)\n    return (a, ys)\n"),
     # a fresh list handed to a call made for its effect is one object, not the display `[]` (len([]) folded to 0)
     ("def f(a):\n    ys = []\n    grow(ys, 2)\n    t1 = len(ys)\n    return (t1 * a + -(0 + t1), ys)\n", "def f(a):\n    ys = []\n    grow(ys, 2)\n    t1 = len(ys)\n    return (t1 * a + -(0 * t1), ys)\n"),
+    # an unreachable yield still makes the function a generator function
+    ("def f(a):\n    if True:\n        return 2\n    yield a\n", "def f(a):\n    if True:\n        return 2\n"),
 ]
 SAME = [
     ("def f(sub, st):\n    tot = sum([sub[k].m * v for k, v in st.items()])\n    return {k: sub[k].m * v / tot for k, v in st.items()}\n",
